@@ -48,9 +48,29 @@ impl Actor for BA {
 /// id, and the gate (if any) the handler waits for
 pub struct Work(pub u32, pub Option<usize>);
 
+/// Messages with an id in 80..=89 must not be thrown away: dropping one that was never handed to the handler panics
+/// (on whichever thread drops it - for the bounded blocking calls that is their helper thread).
+pub fn is_precious_id(id: u32) -> bool {
+    (80..=89).contains(&id)
+}
+
+impl Drop for Work {
+    fn drop(&mut self) {
+        if is_precious_id(self.0) && !std::thread::panicking() {
+            panic!("injected: message {} was dropped without being handled", self.0);
+        }
+    }
+}
+
 impl Message<Work> for BA {
     type Reply = u32;
     async fn handle(&mut self, m: Work, _r: &ActorRef<Self>) -> u32 {
+        let m = {
+            // handled: defuse
+            let copy = (m.0, m.1);
+            std::mem::forget(m);
+            copy
+        };
         self.log.lock().unwrap().push((Instant::now(), Log::Called(m.0)));
         if let Some(g) = m.1 {
             let p = self.gates[g].acquire().await.unwrap();
@@ -547,7 +567,9 @@ pub fn check_run(scn: &BScenario, run: &BRun) -> Vec<(String, String)> {
             None => v("C17 blocking call returns", format!("op {:?} of caller {} never returned (even after every gate was opened and the actor ended)", o.op, o.caller)),
             Some(BRes::Panicked(m)) => v("C17 no panic", format!("op {:?} (caller context {:?}) panicked: {m}", o.op, scn.callers[o.caller].ctx)),
             Some(BRes::Err(e)) => {
-                failures += 1;
+                if !is_precious_id(id) {
+                    failures += 1;
+                }
                 // rejected messages are never handled: tell errors, ask Send errors
                 let rejected = is_tell(&o.op) || e == "Send";
                 if rejected && called.contains(&id) {
@@ -674,8 +696,11 @@ pub fn check_run(scn: &BScenario, run: &BRun) -> Vec<(String, String)> {
         }
         let mut want: std::collections::BTreeMap<&str, i64> = Default::default();
         for o in &run.ops {
-            if op_id(&o.op).is_none() {
-                continue;
+            match op_id(&o.op) {
+                // (a message whose destructor panics when the failed send hands it back: the unwinding skips the record)
+                Some(id) if is_precious_id(id) => continue,
+                None => continue,
+                _ => {}
             }
             if let Some(BRes::Err(e)) = &o.res {
                 let reason = match e.as_str() {
@@ -941,6 +966,18 @@ pub fn scenarios(thorough: bool) -> Vec<BScenario> {
             BCaller { erased: false, ctx: Ctx::SpawnBlockingBareRt, ops: vec![t(1, None, Some(60)), a(2, Some(0), Some(60))] },
             BCaller { erased: true, ctx: Ctx::SpawnBlockingBareRt, ops: vec![a(3, None, Some(60))] },
             BCaller { erased: false, ctx: Ctx::Async, ops: vec![BOp::OpenGate(0)] },
+        ],
+    });
+    // S18: bounded calls whose helper thread dies (the message's destructor panics when the dead actor's mailbox
+    // hands it back): that is a failure of its own kind, reported at once - not a timeout
+    v.push(BScenario {
+        name: "b18-helper-thread-dies".into(),
+        cap: 2,
+        gates: 0,
+        callers: vec![
+            BCaller { erased: false, ctx: Ctx::Async, ops: vec![BOp::Stop] },
+            BCaller { erased: false, ctx: Ctx::Thread, ops: vec![BOp::Wait(100), t(80, None, Some(2000)), a(81, None, Some(2000))] },
+            BCaller { erased: true, ctx: Ctx::SpawnBlocking, ops: vec![BOp::Wait(100), a(82, None, Some(2000))] },
         ],
     });
     // S6: unusual timeout values
